@@ -58,12 +58,14 @@ type ScConf struct {
 }
 
 type ScEndpoint struct {
-	Kind        string `json:"kind"` // custom | tcp_server | udp_server | tcp_client | udp_client | udp_broadcast | serial | bad_address | busy_port
-	SerialFails int    `json:"serial_fails"`
-	Host        string `json:"host"`          // tcp_client: the endpoint is configured with this domain name (resolved by the harness's DNS)
-	LMode       string `json:"lmode"`         // tcp_client: initial behaviour of the fake server (accept | refuse | accept_close)
-	Drain       bool   `json:"drain"`         // custom: data queued before Close is still readable after Close (like a pipe)
-	ErrWithData bool   `json:"err_with_data"` // custom: an injected read error is returned together with the last bytes (n > 0, err != nil)
+	Kind        string  `json:"kind"` // custom | tcp_server | udp_server | tcp_client | udp_client | udp_broadcast | serial | bad_address | busy_port
+	SerialFails int     `json:"serial_fails"`
+	Host        string  `json:"host"`          // tcp_client: the endpoint is configured with this domain name (resolved by the harness's DNS)
+	LMode       string  `json:"lmode"`         // tcp_client: initial behaviour of the fake server (accept | refuse | accept_close)
+	Drain       bool    `json:"drain"`         // custom: data queued before Close is still readable after Close (like a pipe)
+	DNS         string  `json:"dns"`           // tcp_client with host: what the name resolves to at first ("ip1,ip2": several A records), default 127.0.0.1
+	BcastPort   *string `json:"bcast_port"`    // udp_broadcast: the port part of BroadcastAddress as written by the user ("abc", "", "0", "70000", ...)
+	ErrWithData bool    `json:"err_with_data"` // custom: an injected read error is returned together with the last bytes (n > 0, err != nil)
 }
 
 type ScItem struct {
@@ -73,34 +75,36 @@ type ScItem struct {
 	Comp      int    `json:"comp"`
 	Autopilot int    `json:"autopilot"`
 	N         int    `json:"n"`
+	Mute      bool   `json:"mute"`      // part of the environment, not of the judged history: neither the feed nor the events of this sender (ep, sys, comp) are recorded
 	TsBackS   int    `json:"ts_back_s"` // keyed input: the sender's clock is this many seconds behind the harness's
 }
 
 type ScStep struct {
-	Op     string        `json:"op"`
-	Ep     int           `json:"ep"`
-	Peer   int           `json:"peer"`
-	Inst   int           `json:"inst"`
-	Item   *ScItem       `json:"item"`
-	Chunks []int         `json:"chunks"`
-	Mode   string        `json:"mode"`
-	At     int           `json:"at"`
-	Run    bool          `json:"run"`
-	G      int           `json:"g"`
-	Kind   string        `json:"kind"`
-	Target string        `json:"target"` // "" | "ep" | "foreign" | "nil"
-	Tag    int           `json:"tag"`
-	Raw    bool          `json:"raw"`
-	Err    string        `json:"err"` // twrite_mode: what the failing write returns: "" (plain) | deadline | eof | closed_pipe | net_timeout
-	Bad    string        `json:"bad"` // "" | id_outside | v1_big | no_dialect_msg
-	Point  string        `json:"point"`
-	Ms     int           `json:"ms"`
-	From   string        `json:"from"`
-	N      int           `json:"n"`
-	Sync   bool          `json:"sync"`
-	Items  []ScBurstItem `json:"items"`
-	AtMs   int           `json:"at_ms"`  // burst: handed to the transports this long after Initialize returned (0: at once)
-	NoRead bool          `json:"noread"` // peer_connect: the peer sends but never reads what the node writes to it
+	Op      string        `json:"op"`
+	Ep      int           `json:"ep"`
+	Peer    int           `json:"peer"`
+	Inst    int           `json:"inst"`
+	Item    *ScItem       `json:"item"`
+	Chunks  []int         `json:"chunks"`
+	Mode    string        `json:"mode"`
+	At      int           `json:"at"`
+	Run     bool          `json:"run"`
+	G       int           `json:"g"`
+	Kind    string        `json:"kind"`
+	Target  string        `json:"target"` // "" | "ep" | "foreign" | "nil"
+	Tag     int           `json:"tag"`
+	Raw     bool          `json:"raw"`
+	Err     string        `json:"err"` // twrite_mode: what the failing write returns: "" (plain) | deadline | eof | closed_pipe | net_timeout
+	Bad     string        `json:"bad"` // "" | id_outside | v1_big | no_dialect_msg
+	Point   string        `json:"point"`
+	Ms      int           `json:"ms"`
+	From    string        `json:"from"`
+	N       int           `json:"n"`
+	Sync    bool          `json:"sync"`
+	Items   []ScBurstItem `json:"items"`
+	Foreign bool          `json:"foreign"` // write (Frame kinds): a forwarded, already encoded frame whose message id the node's dialect does not contain
+	AtMs    int           `json:"at_ms"`   // burst: handed to the transports this long after Initialize returned (0: at once)
+	NoRead  bool          `json:"noread"`  // peer_connect: the peer sends but never reads what the node writes to it
 }
 
 // ScBurstItem: one item of a burst (all items are recorded first, then handed to the transports by one goroutine
@@ -292,7 +296,8 @@ type player struct {
 	sc     Scenario
 	rec    *Rec
 	t0     time.Time
-	initAt time.Time // when Initialize returned
+	initAt time.Time       // when Initialize returned
+	muted  map[[3]int]bool // senders (ep, sys, comp) whose feeds and events are not recorded
 	node   *gomavlib.Node
 	ctls   map[int]*ctlRWC
 	addrs  map[int]string
@@ -641,6 +646,9 @@ func (p *player) consumer() {
 			p.mu.Unlock()
 		case *gomavlib.EventFrame:
 			ep, inst := p.chanKey(e.Channel)
+			if p.isMuted(ep, int(e.SystemID()), int(e.ComponentID())) {
+				continue
+			}
 			tag, id, ap := -1, int(e.Message().GetID()), -1
 			switch m := e.Message().(type) {
 			case *common.MessageNamedValueInt:
@@ -669,9 +677,18 @@ func (p *player) consumer() {
 			p.rec.Put(M{"e": "Ev", "type": "perr", "ep": ep, "inst": inst, "t": p.ms()})
 		case *gomavlib.EventStreamRequested:
 			ep, inst := p.chanKey(e.Channel)
+			if p.isMuted(ep, int(e.SystemID), int(e.ComponentID)) {
+				continue
+			}
 			p.rec.Put(M{"e": "Ev", "type": "streamreq", "ep": ep, "inst": inst, "sys": int(e.SystemID), "comp": int(e.ComponentID), "t": p.ms()})
 		}
 	}
+}
+
+func (p *player) isMuted(ep, sys, comp int) bool {
+	p.mu.Lock()
+	defer p.mu.Unlock()
+	return p.muted[[3]int{ep, sys, comp}]
 }
 
 func (p *player) doClose(from string) {
@@ -898,11 +915,15 @@ func (p *player) startDNS() {
 			resp := append([]byte{}, q[:qend]...)
 			resp[2], resp[3] = 0x81, 0x80 // response, recursion available, no error
 			resp[6], resp[7], resp[8], resp[9], resp[10], resp[11] = 0, 0, 0, 0, 0, 0
-			ip := net.ParseIP(p.dnsIP.Load().(string)).To4()
-			if qtype == 1 && ip != nil {
-				resp[7] = 1
-				resp = append(resp, 0xC0, 0x0C, 0, 1, 0, 1, 0, 0, 0, 0, 0, 4)
-				resp = append(resp, ip...)
+			// one A record per address (a name may have several: "ip1,ip2", answered in that order)
+			if qtype == 1 {
+				for _, a := range strings.Split(p.dnsIP.Load().(string), ",") {
+					if ip := net.ParseIP(a).To4(); ip != nil {
+						resp[7]++
+						resp = append(resp, 0xC0, 0x0C, 0, 1, 0, 1, 0, 0, 0, 0, 0, 4)
+						resp = append(resp, ip...)
+					}
+				}
 			}
 			p.rec.Put(M{"e": "DNS", "qtype": qtype, "answer": p.dnsIP.Load().(string), "t": p.ms()})
 			pc.WriteTo(resp, src) //nolint:errcheck
@@ -1012,7 +1033,7 @@ func cmdNode(o opts) {
 		peers: map[[2]int]net.Conn{}, listeners: map[int]net.Listener{}, lmode: map[int]string{}, serialFailsLeft: map[int]int{},
 		listeners2: map[int]net.Listener{},
 		peerSeq:    map[int]int{}, expect: map[int]int64{}, peerEnded: map[[2]int]bool{}, pktConns: map[int]net.PacketConn{}, udpSrc: map[string]int{},
-		reuse: map[int]*common.MessageNamedValueInt{}, hangFds: map[int]int{}, hangConns: map[int][]net.Conn{}}
+		muted: map[[3]int]bool{}, reuse: map[int]*common.MessageNamedValueInt{}, hangFds: map[int]int{}, hangConns: map[int][]net.Conn{}}
 	p.consCond = sync.NewCond(&p.mu)
 	p.pauseReq = make(chan struct{})
 	p.rec.Flush = true
